@@ -397,8 +397,18 @@ def gen_case(r, cid, big=False):
                 c["value"] = nd[2] if (r.chance(3, 4) or not nd[1]) else nd[1]
         else:
             c["kind"] = "ns"; c["argdoc"] = r.below(ndocs)
+            if ndocs > 1 and r.chance(1, 4):
+                # a node-set argument whose nodes come from two documents (source / document() / result tree fragment)
+                c["argdoc2"] = r.choice([j for j in range(ndocs) if j != c["argdoc"]])
             c["pat"] = r.choice(["*", "@*", "@x", "@y", "b", "a", "text()", "a/@x", "c", "d", "*[@x]", "b|@x", "comment()",
                                  "a[not(@x)]", "zzz", "node()", "a|b|c", "*[1]", "b[last()]", "*[@x][1]"])
+        if c.get("form") and ndocs > 1 and r.chance(1, 3):
+            # context nodes from TWO documents in one expression: the predicate filters the nodes of doc and of doc2; the
+            # result holds, side by side, what each document's own table answers (XSLT 12.2: the context node's document)
+            c["doc2"] = r.choice([j for j in range(ndocs) if j != c["doc"]])
+            c["extra"] = None
+        if not c.get("form") and r.chance(1, 10):
+            c["ctx"] = "ns"      # the context node is a namespace node (of the first element) of the document
         calls.append(c)
     if r.chance(1, 3) and calls:   # repeat an earlier call (cache hit on a built table)
         calls.append(dict(r.choice(calls)))
@@ -419,7 +429,10 @@ def gen_case(r, cid, big=False):
         # with that error rather than build a table (KeyTable would otherwise recurse into itself)
         ds = case["decls"]
         nm = ds[0][1] if ds else "k"
-        if r.chance(1, 2):
+        if r.chance(1, 3):
+            # namespace nodes cannot be match targets: patterns allow the child and attribute axes only
+            case["decls"] = ds + [(0, nm, "namespace::*", ".")]
+        elif r.chance(1, 2):
             case["decls"] = ds + [(0, nm, "a", "count(key('%s',@x))" % lex_name(None, nm))]
         else:
             case["decls"] = ds + [(0, nm, "a[key('%s','u')]" % lex_name(None, nm), "@x")]
@@ -517,15 +530,22 @@ def render_sheet(case, sid):
                        '<xsl:for-each select="$D%d//node()|$D%d//@*">%s</xsl:for-each><xsl:text>&#10;</xsl:text>'
                        % (k, k, gid, k, k, gid))
         for i, c in enumerate(case["calls"]):
-            ctx = ("$D%d" % c["doc"] if c["ctx"] == 0 else "($D%d//node())[%d]" % (c["doc"], c["ctx"]) if c["ctx"] > 0
+            ctx = ("($D%d//namespace::*)[1]" % c["doc"] if c["ctx"] == "ns" else
+                   "$D%d" % c["doc"] if c["ctx"] == 0 else "($D%d//node())[%d]" % (c["doc"], c["ctx"]) if c["ctx"] > 0
                    else "($D%d//@*)[%d]" % (c["doc"], -c["ctx"]))
             if c["kind"] == "str":
                 rhs = "'%s'" % c["value"]
                 pre = ""
             else:
                 rhs = "$A"
-                pre = '<xsl:variable name="A" select="%s"/>' % pattern_as_nodeset(c["pat"], "$D%d" % c["argdoc"])
+                asel = pattern_as_nodeset(c["pat"], "$D%d" % c["argdoc"])
+                if c.get("argdoc2") is not None:
+                    asel += "|" + pattern_as_nodeset(c["pat"], "$D%d" % c["argdoc2"])
+                pre = '<xsl:variable name="A" select="%s"/>' % asel
             bmain, broot = brute(case["decls"], c["name"], rhs, "$D%d" % c["doc"])
+            if c.get("doc2") is not None:
+                bm2, br2 = brute(case["decls"], c["name"], rhs, "$D%d" % c["doc2"])
+                bmain, broot = "%s|%s" % (bmain, bm2), "%s|%s" % (broot, br2)
             kcall = "key('%s',%s)" % (lex_name(None, c["name"], i), rhs)
             form = c.get("form", "top")
             if form == "top":
@@ -536,7 +556,10 @@ def render_sheet(case, sid):
                 cur, j = c["cur"], c["curctx"]
                 ctx = "$D%d" % cur if j == 0 else "($D%d//node())[%d]" % (cur, j)
                 kk = kcall if form == "pred" else kcall + "/self::node()"
-                ksel = "($D%d//node()|$D%d//@*|$D%d)[count(.|%s)=count(%s)]" % (c["doc"], c["doc"], c["doc"], kk, kk)
+                alln = "$D%d//node()|$D%d//@*|$D%d" % (c["doc"], c["doc"], c["doc"])
+                if c.get("doc2") is not None:
+                    alln += "|$D%d//node()|$D%d//@*|$D%d" % (c["doc2"], c["doc2"], c["doc2"])
+                ksel = "(%s)[count(.|%s)=count(%s)]" % (alln, kk, kk)
             extra = ""
             ex = c.get("extra") if form != "top" else None
             alld = "$D%d//node()|$D%d//@*|$D%d" % (c["doc"], c["doc"], c["doc"])
@@ -580,12 +603,14 @@ def request_lines(case):
     for (sid, name, pat, use) in case["decls"]:
         ls.append("decl %d %s %s %s" % (owner(case, sid), name, pat, use))
     for c in case["calls"]:
-        head = "call %d %d %s %s %s" % (c["doc"], c.get("cur", c["doc"]), "p" if c["name"].startswith("{") else "u",
-                                       "top" if c.get("form", "top") == "top" else "pred", c["name"])
-        if c["kind"] == "str":
-            ls.append("%s str %s" % (head, tok(c["value"])))
-        else:
-            ls.append("%s ns %d %s" % (head, c["argdoc"], c["pat"]))
+        for d in call_docs(c):
+            head = "call %d %d %s %s %s" % (d, c.get("cur", c["doc"]), "p" if c["name"].startswith("{") else "u",
+                                           "top" if c.get("form", "top") == "top" else "pred", c["name"])
+            if c["kind"] == "str":
+                ls.append("%s str %s" % (head, tok(c["value"])))
+            else:
+                ad = str(c["argdoc"]) + ("+%d" % c["argdoc2"] if c.get("argdoc2") is not None else "")
+                ls.append("%s ns %s %s" % (head, ad, c["pat"]))
     for k, d in enumerate(case["docs"]):
         if k not in case.get("rtf", []):
             ls.append("file %s %s" % ("main.xml" if k == 0 else "d%d.xml" % k, hexs(doc_xml(d, strip_pred(case)))))
@@ -593,6 +618,11 @@ def request_lines(case):
         ls.append("file %s %s" % (module_file(sid), hexs(render_sheet(case, sid))))
     ls.append("run main.xsl main.xml")
     return ls
+
+
+def call_docs(c):
+    """the documents whose nodes are XPath context nodes of this call (one model call each, in this order)"""
+    return [c["doc"]] + ([c["doc2"]] if c.get("doc2") is not None else [])
 
 
 def owner(case, sid):
